@@ -108,7 +108,7 @@ func varStoragePolicy(p *Prog) provPolicy {
 func runC27(p *Prog, r *Result) {
 	r.Rule("R27a", "writes to variable storage (lists, indexes, maps, positional parameters) only through storage created in the same activation", 60)
 	r.Rule("R27b", "subshell(): every map/slice/pointer field of the new Runner is a fresh copy, except the table of fields shared by design", 8)
-	r.Rule("R27c", "overlayEnviron.Set writes to its parent only under funcScope; funcScope is only set by (*Runner).call", 2)
+	r.Rule("R27c", "overlayEnviron.Set writes to its parent only under funcScope; funcScope is only set by (*Runner).call; no function that reads overlayEnviron.parent hands out an environment", 5)
 	r.Rule("R27d", "inside every isolating construct (command/process substitution callbacks, the Subshell clause, the pipeline clause, the background branch) calls that can change variables, functions, aliases, options, directory or positional parameters run on a runner made by subshell(), never on the parent", 6)
 	checkOwnership(p, r, "R27a", false)
 	checkIsolationRegions(p, r, "R27d")
@@ -441,6 +441,87 @@ func checkOverlayDirection(p *Prog, r *Result) {
 	})
 	if n == 0 {
 		r.Notef("R27c: overlayEnviron.Set never writes to its parent")
+	}
+	// Nobody hands out an ancestor environment: a function that reads overlayEnviron.parent and returns an environment
+	// (a pointer or an interface value) gives its callers something to call Set on that lies beyond the current
+	// overlay — across a subshell boundary, which is exactly what an overlay is there to stop. Get and Each read through
+	// the parent and return variables, not environments.
+	nParentReaders := 0
+	for _, fd := range p.AllFuncDecls("interp") {
+		reads := false
+		ast.Inspect(fd.Body, func(nd ast.Node) bool {
+			if f := selectorFieldNode(info, nd); f != nil && f.Name() == "parent" {
+				if sel, ok := nd.(*ast.SelectorExpr); ok && typeName(derefType(info.TypeOf(sel.X))) == "overlayEnviron" {
+					reads = true
+				}
+			}
+			return true
+		})
+		if !reads {
+			continue
+		}
+		nParentReaders++
+		handsOut := false
+		if fd.Type.Results != nil {
+			for _, res := range fd.Type.Results.List {
+				t := info.TypeOf(res.Type)
+				if t == nil {
+					continue
+				}
+				switch t.Underlying().(type) {
+				case *types.Pointer, *types.Interface:
+					if t.String() != "error" {
+						handsOut = true
+					}
+				}
+			}
+		}
+		// the constructor returns the new overlay, whose parent it just stored
+		isCtor := false
+		ast.Inspect(fd.Body, func(nd ast.Node) bool {
+			if cl, ok := nd.(*ast.CompositeLit); ok && typeName(info.TypeOf(cl)) == "overlayEnviron" {
+				isCtor = true
+			}
+			return true
+		})
+		// a walk that only follows parents of function-scope overlays stays inside the current shell: every read of
+		// .parent sits in the body of an `if`/`for` whose condition has funcScope as a positive atom
+		onlyFuncScopes := true
+		if handsOut && !isCtor {
+			ast.Inspect(fd.Body, func(nd ast.Node) bool {
+				sel, ok := nd.(*ast.SelectorExpr)
+				if !ok || sel.Sel.Name != "parent" || typeName(derefType(info.TypeOf(sel.X))) != "overlayEnviron" {
+					return true
+				}
+				guarded := false
+				ast.Inspect(fd.Body, func(m ast.Node) bool {
+					var cond ast.Expr
+					var body *ast.BlockStmt
+					switch y := m.(type) {
+					case *ast.IfStmt:
+						cond, body = y.Cond, y.Body
+					case *ast.ForStmt:
+						cond, body = y.Cond, y.Body
+					}
+					if cond == nil || body == nil || !(body.Pos() <= sel.Pos() && sel.End() <= body.End()) {
+						return true
+					}
+					for _, a := range conjuncts(cond) {
+						if f := selectorField(info, a); f != nil && f.Name() == "funcScope" {
+							guarded = true
+						}
+					}
+					return true
+				})
+				if !guarded {
+					onlyFuncScopes = false
+				}
+				return true
+			})
+		}
+		r.Check(!handsOut || isCtor || onlyFuncScopes, "R27c", funcKey("interp", fd)+"#reads overlayEnviron.parent without handing out an environment", fd.Pos(),
+			"reads through the parent and returns no environment (or is the constructor, or only climbs out of function scopes)",
+			"this function follows overlayEnviron.parent and returns an environment: its callers can Set variables in an ancestor of the current overlay, i.e. in the shell a subshell was copied from")
 	}
 	// other writes to the parent field's target: stores to o.parent are only in newOverlayEnviron / literals
 	// funcScope: true literals only in (*Runner).call
